@@ -56,6 +56,8 @@ def attribute(run, line, verdict):
         return "C11"
     if scn == "xjoin":
         return "C06"
+    if scn == "cancelmix":
+        return "C12"
     if scn == "cancelnew":
         return "C12+C03"          # a cancelled target must release its joiner: clause of both properties
     pend_join = None
@@ -113,6 +115,8 @@ def run_exec(pid, tier, seed, emphasis, scns=("exec",)):
                 if scn == "migrace" and (nes < 2 or cfg):
                     continue
                 if scn == "xjoin" and (nes < 1 or cfg == 4):
+                    continue
+                if scn == "cancelmix" and nes < 1:
                     continue
                 for off in range(0, n, per):
                     jobs.append(dict(exe=exe, scn=scn, seed0=seed * 1000000 + emphasis * 100000 + 1 + off,
